@@ -1630,6 +1630,11 @@ func (app *App) repairSlaveOfflineMode(host string, state *nodestate.NodeState, 
 			app.logger.Info().Msgf("repair: replica %s is permanently broken, won't set online", host)
 			return
 		}
+		if !state.IsReadOnly {
+			// repairSlaveNode makes it read-only later in this iteration, clients must not get in before that
+			app.logger.Warn().Msgf("repair: replica %s is not read-only yet, won't set online", host)
+			return
+		}
 		resetupStatus, err := app.GetResetupStatus(host)
 		if err != nil {
 			app.logger.Error().Err(err).Msgf("repair: failed to get resetup status from host %s", host)
